@@ -321,6 +321,7 @@ func runCase(c Case) (*failure, string, bool) {
 		return s
 	}
 	total := 0
+	kept := make([][]byte, len(pkts))
 	for i, want := range pkts {
 		got, n, err := sp.ReadPacket()
 		if err != nil {
@@ -346,6 +347,12 @@ func runCase(c Case) (*failure, string, bool) {
 		if got.PacketType != wantType {
 			return &failure{"C01/type-mismatch", fmt.Sprintf("packet %d: got type %#x want %#x", i, got.PacketType, wantType)}, "", false
 		}
+		// "consumes exactly the bytes of each packet": nothing beyond this packet may have been
+		// pulled off the transport (another reader of the same connection - raw stream mode after
+		// TunnelOpen, a fresh processor - must find the following bytes)
+		if cr.Consumed() > bounds[i][1] {
+			return &failure{"C01/reader-consumed-beyond-packet", fmt.Sprintf("after packet %d (ends at %d) the reader has taken %d bytes off the transport", i, bounds[i][1], cr.Consumed())}, "", false
+		}
 		if n != bounds[i][1]-bounds[i][0] {
 			return &failure{"C01/reader-count-mismatch", fmt.Sprintf("packet %d: ReadPacket returned %d bytes, packet occupies %d", i, n, bounds[i][1]-bounds[i][0])}, "", false
 		}
@@ -359,9 +366,16 @@ func runCase(c Case) (*failure, string, bool) {
 				return &failure{"C01/command-mismatch", fmt.Sprintf("packet %d: got %+v want %+v", i, got.CommandPacket, want.packet().CommandPacket)}, "", false
 			}
 		default:
+			kept[i] = got.Payload
 			if !bytes.Equal(got.Payload, want.body()) {
 				return &failure{"C01/body-mismatch/" + where(i), fmt.Sprintf("packet %d: got %d bytes want %d (first diff at %d)", i, len(got.Payload), len(want.body()), firstDiff(got.Payload, want.body()))}, "", false
 			}
+		}
+	}
+	// payloads returned earlier must still hold their bytes after later packets were read
+	for i, g := range kept {
+		if g != nil && !bytes.Equal(g, pkts[i].body()) {
+			return &failure{"C01/earlier-payload-overwritten-by-later-read", fmt.Sprintf("payload of packet %d (%d bytes) changed after reading the following packets (first diff at %d)", i, len(g), firstDiff(g, pkts[i].body()))}, "", false
 		}
 	}
 	if total != len(wire) || cr.Consumed() != len(wire) {
